@@ -86,7 +86,7 @@ pub fn run(seed: u64, count: usize, outdir: &str) -> std::io::Result<i32> {
                 let p = m4.transform_point(&Point3::new(x as f32, y as f32, z as f32));
                 let mut orc = Oracle::default();
                 let vals = eval_arena(&g.ctx, &|v: Var| match v { Var::X => p.x, Var::Y => p.y, Var::Z => p.z, _ => f32::NAN }, &mut orc);
-                if vals.iter().any(|v| v.is_nan()) || orc.zero_tie || orc.atan00 { excluded = true; break; }
+                if vals.iter().any(|v| v.is_nan()) || orc.zero_tie || orc.atan00 || orc.atan_y_zero || orc.abs_of_neg_zero { excluded = true; break; }
                 let v = vals[g.root.verif_index()];
                 let scale = vals.iter().fold(1.0f32, |a, b| a.max(b.abs()));
                 if v != 0.0 && v.abs() <= 1e-4 * scale { nearz = true; }   // an exact zero is simply not negative
